@@ -172,5 +172,24 @@ CHECKS["C03"] = dict(
           dict(name="entry-points", test="^TestEntryPoints$", kind="plain", quick=dict(n=1, procs=1, timeout=300), thorough=dict(n=1, procs=1, timeout=600))],
 )
 
+CHECKS["C11"] = dict(
+    level="exploration",
+    technique="property testing (rapid) of key generation and private-link extension through the real emitter/keygen/ request and the /keygen HTTP form; the "
+              "returned key is decrypted and compared field by field with an independent recomputation, then probed through Service.Authorize",
+    level_text="Generated requests over parent kinds (master, expired/foreign-cipher/unknown-contract/bad-signature master, ordinary, extendable x every mask, "
+               "expired extendable, garbage), permission strings over rwslpex + junk, ttl 0/+-small/+-1e7/int32 extremes, valid and malformed channels (no "
+               "trailing slash, >23 levels, wildcards, #/): an issued key must have no master bit, permissions within the request (and the parent, extend "
+               "cleared, for extension), the parent's contract/signature/master, target bytes equal to a recomputation for exactly the requested channel "
+               "(<channel><connection id>/ for extension, #/ moved behind the id), expiry = request time + ttl (+-2 s) or none, and must authorize the intended "
+               "channel but neither sibling nor parent; non-master / expired / foreign parents must be refused; every mask with the extend bit is refused for "
+               "SUBSCRIBE and PUBLISH.",
+    level_note="Trusted: hash.OfString (murmur) for the target hash, the 15-line bit-path recomputation, keys built field by field. Listed finding: ttl so negative "
+               "that request time + ttl precedes 2010-01-01 underflows the 32-bit expiry field.",
+    rule="rapid-generated requests; non-trivial = a key was issued from a master, or the request asks for permissions the parent lacks, or a refusal caused by a "
+         "parent defect with a well-formed channel; distinct = distinct case value.",
+    legs=[dict(name="keygen", test="^(TestProbeTTLUnderflow|TestKeygen)$", quick=dict(n=6000, procs=3, timeout=300), thorough=dict(n=600000, procs=12, timeout=2400)),
+          dict(name="extendable", test="^TestExtendableUnusable$", kind="plain", quick=dict(n=1, procs=1, timeout=300), thorough=dict(n=1, procs=1, timeout=300))],
+)
+
 for _k in CHECKS:
     NOT_APPLICABLE.pop(_k, None)
